@@ -47,7 +47,7 @@ def fresh_equal(v):
     if type(v) is str:
         return "".join(list(v))
     return v
-MODELS = ["none", "plain", "property", "class-default", "falsy-len", "custom-field"]
+MODELS = ["none", "plain", "property", "class-default", "falsy-len", "custom-field", "mixin-first"]
 IDS = ["s0", "s1", "s2"]
 NEXT = {"s0": "s1", "s1": "s2", "s2": "s0"}
 
@@ -107,6 +107,8 @@ def build_model(shape, field):
     if shape == "class-default":
         CD = type("CD", (), {field: None})
         return CD(), writes
+    if shape == "mixin-first":
+        return "mixin", writes  # built in run(): the object creates its machine itself (MachineMixin)
     if shape == "falsy-len":
         class Bag:
             def __len__(self):
@@ -125,7 +127,7 @@ def tasks(tier):
     falsy = ("ints", "strs", "tuples", "falsy-mix", "falsy-mix2")
     for fam in fams:
         if quick:
-            shapes = ["none", "property"] + (["falsy-len"] if fam in falsy else []) + (["plain", "class-default", "custom-field"] if fam == "ints" else [])
+            shapes = ["none", "property"] + (["falsy-len"] if fam in falsy else []) + (["plain", "class-default", "custom-field", "mixin-first"] if fam == "ints" else [])
             if fam == "bigints":
                 shapes = ["plain", "property"]
         else:
@@ -142,7 +144,7 @@ BUDGET = {
 BOUNDS = {
     "quick": "3-state ring (go) with self (stay) and internal (stay on s2) transitions; state values from 9 families (ints beyond the small-int cache, default ids, ints incl. 0 and -1, "
     "strings incl. '', tuples incl. (), enum members, two mixes of distinct falsy values); model shapes {default, plain attribute, property-backed with a "
-    "write log, class-level default, falsy object defining __len__, custom state_field}; start_value {absent, each state's value, unmapped}; model empty or already holding any state's value; a script of 2 "
+    "write log, class-level default, falsy object defining __len__, custom state_field, an object that creates its own machine through MachineMixin listed before a base whose initialiser assigns the field}; start_value {absent, each state's value, unmapped}; model empty or already holding any state's value; a script of 2 "
     "operations (the second from a reduced menu) from {send go, send stay, write a valid value (an equal but freshly built object) straight into the model, write a symbolic int / a pool value through the setter, send with a "
     "callback that writes the model during `on` or `after`, assign a State object of this or of another machine class to current_state}; for two families a subclass adding a state is defined first (its value stays unmapped for the base); after every operation field, current_state, current_state_value, is_active of every state and "
     "model identity are compared with the expectation.",
@@ -194,12 +196,35 @@ def run(ctx, params):
     pre = ctx.choose(4, "prestored") if model is not None else 0  # the model already holds state #pre-1 (persistence)
     if pre:
         with ctx.notracing():
-            setattr(model, field, fresh_equal(vals[pre - 1]))
+            if shape != "mixin-first":
+                setattr(model, field, fresh_equal(vals[pre - 1]))
             del writes[:]
         if sv_choice >= 2 and params["reduced"] or sv_choice == 4:
             return
+    if shape == "mixin-first":
+        # class Doc(MachineMixin, Row): the mixin comes first, the other base's initialiser assigns the field (an ORM
+        # base setting column defaults / the stored value); the machine is created by the mixin, without start_value
+        if sv_choice != 0:
+            return
+        with ctx.notracing():
+            import statemachine.registry as registry
+            from statemachine.mixins import MachineMixin
+
+            registry._initialized = True  # environment stub: skip django autodiscovery
+            registry.register(cls)
+            stored0 = fresh_equal(vals[pre - 1]) if pre else None
+
+            class Row:
+                def __init__(self):
+                    self.state = stored0
+
+            class Doc(MachineMixin, Row):
+                state_machine_name = f"{cls.__module__}.{cls.__name__}"
+
+        model = Doc()
+        kw = None
     try:
-        sm = cls(model, **kw) if model is not None else cls(**kw)
+        sm = model.statemachine if kw is None else (cls(model, **kw) if model is not None else cls(**kw))
     except InvalidStateValue:
         if sv_choice == 4:
             ctx.cover("unmapped-start-rejected")
